@@ -27,7 +27,7 @@ Your task: produce ONE small source change to the library code (under AegeanTool
  (b) makes the property above false for some inputs, and
  (c) needs something SPECIFIC to manifest - an unusual input, a particular size/parity/boundary, a multi-step sequence of operations, a particular interleaving or fault point, or two cooperating sites that each look fine alone - i.e. NOT something ordinary use or a casual smoke test would expose at once. It should look like a plausible mistake or 'optimisation' a maintainer could make (off-by-one, wrong rounding/division, stale cache, swapped axis on non-square input, wrong comparison strictness, missing wrap, dropped case...). Do not add dead code, env-var switches, randomness or anything that looks deliberately malicious. Keep the diff small (typically 1-10 lines).
 
-Also write a demonstration: a small standalone python script `demo.py` (uses only the project's public/semipublic functions, numpy, astropy etc. as installed; builds any input files it needs in a temp dir) that exits 0 when the property holds on its input and exits 1 (printing what went wrong) when it does not. It must FAIL (exit 1) with your change and PASS (exit 0) on the unmodified worktree. Check both yourself (use `git stash` / `git stash pop` or `git diff > patch; git checkout -- .; ...; git apply patch`).
+Also write a demonstration: a small standalone python script `demo.py` (uses only the project's public/semipublic functions, numpy, astropy etc. as installed; builds any input files it needs in a temp dir) that exits 0 when the property holds on its input and exits 1 (printing what went wrong) when it does not. It must FAIL (exit 1) with your change and PASS (exit 0) on the unmodified worktree. Check both yourself with `git diff > /tmp/<your own file>.patch; git checkout -- AegeanTools; ...; git apply /tmp/<your own file>.patch` - do NOT use `git stash`: the stash is shared between all worktrees of the repository and other people are working in sibling worktrees.
 
 Deliver, in the directory {wt}/_seeded/ (create it):
   patch.diff   - `git diff` of your change (library code only, relative to the worktree HEAD; must apply with `git apply` at the repo root)
